@@ -1,0 +1,39 @@
+//! Verification hooks (only compiled with the `verif` feature).
+//!
+//! Everything here is inert unless a test harness installs a callback.
+
+use std::sync::atomic::{AtomicUsize, Ordering};
+
+#[derive(Debug, Clone, Copy, PartialEq, Eq)]
+pub enum FileKind {
+    Data,
+    Regions,
+}
+
+/// Storage-level events, reported *after* the action took place.
+#[derive(Debug, Clone, Copy, PartialEq, Eq)]
+pub enum Event {
+    MmapWrite { file: FileKind, off: usize, len: usize },
+    SetLen { file: FileKind, len: usize },
+    FlushAsync { file: FileKind, off: usize, len: usize },
+    Sync { file: FileKind },
+    Punch { off: usize, len: usize },
+}
+
+pub type TapFn = fn(&Event);
+
+static TAP: AtomicUsize = AtomicUsize::new(0);
+
+/// Installs (or clears) the global event callback.
+pub fn set_tap(f: Option<TapFn>) {
+    TAP.store(f.map_or(0, |f| f as usize), Ordering::SeqCst);
+}
+
+#[inline]
+pub fn tap(e: Event) {
+    let p = TAP.load(Ordering::Relaxed);
+    if p != 0 {
+        let f: TapFn = unsafe { std::mem::transmute::<usize, TapFn>(p) };
+        f(&e);
+    }
+}
